@@ -195,6 +195,16 @@ def judge(d: specgen.Doc, call: dict, res: dict, rec, feats, case_base) -> None:
             cookies = ";".join(hdrs.get("cookie", []))
             if f"{a['name']}={a['value']}" not in cookies:
                 rec.violation("wire:cookie_missing", feats, case, f"{a['name']}: cookie header {cookies!r}")
+    # the Cookie header carries the cookie arguments of THIS call and nothing else (no authentication is configured): a
+    # cookie left as None, or supplied to an earlier call on the same client, must not be there
+    sent = [tuple(x.strip().split("=", 1)) for h in hdrs.get("cookie", []) for x in h.split(";") if "=" in x]
+    want_c = {(a["name"], str(a["value"])) for a in exp["supplied"] if a["in"] == "cookie"}
+    rec.count("cookie_headers_compared")
+    stray = [c for c in sent if tuple(c) not in want_c]
+    if stray:
+        earlier = call.get("_earlier_cookie_calls") or []
+        rec.violation("wire:cookie_not_supplied_by_this_call", feats, dict(case, preceding_calls=earlier[-3:]),
+                      f"cookie header carries {stray}; this call supplied {sorted(want_c)}")
     for o in exp["omitted"]:
         rec.count("optional_omitted_checked")
         if o["in"] == "header" and o["name"].lower() in hdrs:
@@ -277,10 +287,15 @@ def run_batch(ctx: Ctx, items: list[dict]) -> None:
         op_feats = getattr(d, "op_feats", None) or it.get("op_feats") or {}
         if op_feats:
             case_base["op_feats"] = op_feats
+        cookie_calls: list[dict] = []
         for c in calls:
             r = po["results"].get(c["id"])
             if r is None:
                 continue
+            # calls share ONE client per package: what earlier calls supplied as cookies is part of this call's history
+            c["_earlier_cookie_calls"] = list(cookie_calls)
+            if any(a.get("in") == "cookie" for a in c["args"]):
+                cookie_calls.append({"seg": c["seg"], "http": c["http"], "args": c["args"]})
             f2 = feats
             if op_feats:    # shape catalogue: attribute to the shape of THIS operation's body
                 f2 = list(op_feats.get(c["seg"], [])) + ["shapes"]
@@ -298,7 +313,8 @@ def run_batch(ctx: Ctx, items: list[dict]) -> None:
 
 
 def mk_doc(ctx: Ctx, trig: set[str]) -> specgen.Doc:
-    return specgen.generate(ctx.rng, allow=trig, prof={"ops": (2, 5), "p_param": 0.9, "p_body": 0.7, "schemas": (2, 5),
+    # (cookie parameters were a trigger class until they were repaired: part of every document's grammar now)
+    return specgen.generate(ctx.rng, allow=trig | {"cookie_param"}, prof={"ops": (2, 5), "p_param": 0.9, "p_body": 0.7, "schemas": (2, 5),
                                                        "p_multi_media": 0.6 if "multi_request_media" in trig else 0.0,
                                                        "styles": ["camel", "snake", "kebab", "keywordish"], "p_self_ref": 0.0, "p_union": 0.0,
                                                        "p_component_refs": 0.3, "p_range_2xx": 0.08})
@@ -354,4 +370,14 @@ def replay(ctx: Ctx, file: dict) -> None:
         primary = next((k for k in op["responses"] if k.startswith("2")), "200")
         calls = [{"id": "replay", "seg": call["seg"], "http": call["http"], "args": call["args"], "plan": {"status": specgen.status_int(primary), "json": {}},
                   "_exp": {"op": op, "supplied": supplied, "body": body, "omitted": omitted}}]
+        pre = []
+        for k, pc in enumerate(c.get("preceding_calls") or []):     # the history the recorded call depended on
+            pop = next(o for o in c["ops"] if o["seg"] == pc["seg"] and o["method"] == pc["http"])
+            psup = [dict(a, kind=next((p["kind"] for p in pop["params"] if p["name"] == a["name"] and p["in"] == a["in"]), "string"))
+                    for a in pc["args"] if "body" not in a]
+            pbody = next((a["body"] for a in pc["args"] if "body" in a), None)
+            pprim = next((k2 for k2 in pop["responses"] if k2.startswith("2")), "200")
+            pre.append({"id": f"pre{k}", "seg": pc["seg"], "http": pc["http"], "args": pc["args"], "plan": {"status": specgen.status_int(pprim), "json": {}},
+                        "_exp": {"op": pop, "supplied": psup, "body": pbody, "omitted": []}})
+        calls = pre + calls
     run_batch(ctx, [{"doc": d, "n": 1, "trigger": set(file.get("features", [])), "calls": calls}])
